@@ -285,3 +285,27 @@ pub fn law_ord_total<T: Ord>(v: &[T]) -> i64 {
     }
     first_triple(v, |a, b, c| a.cmp(b) != Ordering::Greater && b.cmp(c) != Ordering::Greater && a.cmp(c) == Ordering::Greater)
 }
+
+// ---------------------------------------------------------------------------------------------
+// Generic user-side pieces for the bounds family: they make no demands on the field type, so the
+// only bounds a generated impl needs are the ones derive-ex itself decides to emit.
+// ---------------------------------------------------------------------------------------------
+pub trait Tr {
+    type Assoc;
+}
+pub fn make<T>() -> T {
+    unreachable!()
+}
+pub fn key_of<T: ?Sized>(rank: u8, _x: &T) -> K {
+    K(rank, 0)
+}
+pub fn by_ord<T: ?Sized>(_a: &T, _b: &T) -> Ordering {
+    Ordering::Equal
+}
+pub fn by_pord<T: ?Sized>(_a: &T, _b: &T) -> Option<Ordering> {
+    Some(Ordering::Equal)
+}
+pub fn by_eq<T: ?Sized>(_a: &T, _b: &T) -> bool {
+    true
+}
+pub fn by_hash<T: ?Sized, H: Hasher>(_a: &T, _s: &mut H) {}
